@@ -545,6 +545,48 @@ theorem hostname_ignores_decoys (ui : Option Str) (h : Str) (port : Option Str) 
   simp only [Option.map_some, get_hostname_o, partsOf, hostnameOf, hnl,
     pyHostname_authority ui h port hui hh hport, hl, if_false]
 
+/-- the parsed path of `http://[userinfo@]host[:port]path` is `path` (empty, or `/…` without
+`?`, `#`), whatever the authority -/
+theorem path_ignores_authority (ui : Option Str) (h : Str) (port : Option Str) (path : Str)
+    (hui : ∀ u, ui = some u → ∀ c ∈ u, authChar c = true)
+    (hh : ∀ c ∈ h, hostChar c = true)
+    (hport : ∀ p, port = some p → ∀ c ∈ p, (authChar c && c != '@') = true)
+    (ht : PathOK path) :
+    (parts ("http://".toList ++ (authority ui h port ++ path))).map (·.path) = some path := by
+  obtain ⟨hall, _⟩ := authority_facts ui h port hui hh hport
+  obtain ⟨r, hr, _, hpath⟩ := authSplit_authority_path "http".toList (authority ui h port) path hall ht
+  unfold parts
+  rw [safe_urlsplit_http, hr]
+  simp [partsOf, hpath]
+
+/-- **a bare domain, as a URL**: `http://[userinfo@]host[:port]` and the same followed by `/`
+are flagged by neither shortener predicate, whatever the host and the lists -/
+theorem bare_domain_url_not_flagged (special : Str → Bool) (puny : Str → Str)
+    (homes : List Str) (hhome : homes.contains [] = true) (shorteners extra : List Str)
+    (ui : Option Str) (h : Str) (port : Option Str) (tail : Str)
+    (hui : ∀ u, ui = some u → ∀ c ∈ u, authChar c = true)
+    (hh : ∀ c ∈ h, hostChar c = true)
+    (hport : ∀ p, port = some p → ∀ c ∈ p, (authChar c && c != '@') = true)
+    (ht : tail = [] ∨ tail = ['/']) :
+    is_shortened_url special puny homes shorteners ("http://".toList ++ (authority ui h port ++ tail))
+      = .ok false ∧
+    should_resolve special puny homes shorteners extra ("http://".toList ++ (authority ui h port ++ tail))
+      = .ok false := by
+  have hpo : PathOK tail := by
+    rcases ht with rfl | rfl
+    · exact Or.inl rfl
+    · exact Or.inr ⟨[], rfl, by simp, by simp, by simp⟩
+  have hp := path_ignores_authority ui h port tail hui hh hport hpo
+  cases hparts : parts ("http://".toList ++ (authority ui h port ++ tail)) with
+  | none => rw [hparts] at hp; exact absurd hp (by simp)
+  | some p =>
+    rw [hparts] at hp
+    simp only [Option.map_some, Option.some.injEq] at hp
+    have hb := bare_domain_not_flagged special puny homes hhome shorteners extra p.host p.path
+      (by rw [hp]; exact ht)
+    simp only [is_shortened_url, should_resolve, hparts, shortenedWith_o]
+    exact ⟨congrArg Except.ok hb.1, congrArg Except.ok hb.2⟩
+
 /-- non-vacuity of the decoy theorem's hypotheses, and the forms on a concrete URL -/
 example :
     (∀ c ∈ "a@twitter.com:x.facebook.com".toList, authChar c = true) ∧
